@@ -151,7 +151,12 @@ func gen(t *rapid.T) Case {
 			call.Methods = ins(valid, rapid.SampledFrom(reserved).Draw(t, "reserved"))
 		case 1:
 			call.Label = "unknown-method"
-			call.Methods = ins(valid, rapid.SampledFrom([]string{"BOGUS", "get", "", "Get", "QUERY"}).Draw(t, "unknown"))
+			unknown := []string{"BOGUS", "get", "", "Get", "QUERY", " GET", "POST ", "PUT,DELETE", "GET\n", "PO\u017fT", "\xff"}
+			for _, m := range valid {
+				// one of the call's own methods with white space around it: no method name, wherever it stands
+				unknown = append(unknown, " "+m, m+" ", "\t"+m+"\r\n", " "+m, m+" ")
+			}
+			call.Methods = ins(valid, rapid.SampledFrom(unknown).Draw(t, "unknown"))
 		case 2:
 			call.Label = "duplicate-in-list"
 			if len(valid) == 0 {
